@@ -30,7 +30,7 @@ def srcLen (t : Thread) : Nat :=
   match t.pc with
   | .start => (match t.prog with | .producer src _ => src.length | _ => 0)
   | .done => 0
-  | _ => t.src.length
+  | _ => if isProd t then t.src.length else 0
 
 /-- `_stop_enqueue` from `tAcq` on: both `notify_all`s included -/
 def tA (N : Nat) : Nat := 12 + wE * N + wD * N
